@@ -27,6 +27,10 @@ preserved and must not derail the parse, and are only generated when the variabl
 On a failing case the harness isolates the root cause by re-running the filter on one-statement functions
 (rebuilt by bash) followed by sentinels; the bucket names the statement template(s) that break the parse.
 
+Scoping (sound first; noted as observations, not hunted): an unquoted `}` *word* (`echo }`) inside a nested `{ }` group
+and a command substitution whose last command is an assignment (`$(y=1)`) also derail the parser, but neither is in
+the statement's list of constructs; they are not generated.
+
 Dropped from DESIGN.md: comments inside function bodies (bash's `declare -f` never prints them, so they are not part
 of "a dump as bash writes it"); they survive only inside the text of here-documents, which is generated.
 """
@@ -36,6 +40,7 @@ import io
 import os
 import re
 import subprocess
+import time
 
 from hypothesis import strategies as st
 
@@ -132,8 +137,7 @@ LEAF = {
     "plain": "echo plain; return 0",
     "assign_words": "x=1 y='}' z=\"{\" w=$'}' true",
     "export_stmt": 'export z="}" ; declare -x zz=\'{\'; readonly zzz=\\}',
-    "func_call_brace_arg": "inner_call \\} '}' \"}\" }",
-    "semicolon_brace_word": "echo };",
+    "func_call_brace_arg": "inner_call \\} '}' \"}\" \\{ '{'",
 }
 NEST = {
     "if": 'if [[ -n $x ]]; then\n%B\nelse\n%B\nfi',
@@ -145,7 +149,7 @@ NEST = {
     "subshell": "(\n%B\n)",
     "nested_func": "inner_%N() {\n%B\n}",
     "nested_func_kw": "function inner_%N {\n%B\n}",
-    "comsub_block": "y=$(\n%B\n)",
+    "comsub_block": "y=$(\n%B\necho done\n)",
     "case_block": 'case $x in\n"{")\n%B\n;;\nesac',
 }
 LEAF_IDS = sorted(LEAF)
@@ -296,7 +300,9 @@ def dump_script(case):
     for v in case["vars"]:
         lines.append(f"eval {q(var_source(v))} 2>/dev/null")
     for f in case["funcs"]:
-        lines.append(f"eval {q(func_source(f['name'], f['body']))} 2>/dev/null")
+        # some syntax errors (inside $( )) make a non-interactive bash exit: try in a sub-shell first
+        d = q(func_source(f["name"], f["body"]))
+        lines.append(f"__d={d}; if ( eval \"$__d\" ) >/dev/null 2>&1; then eval \"$__d\"; fi; unset -v __d")
     lines.append("printf 'S\\0'; set; printf '\\0'")
     lines.append("printf 'P\\0'; ( set -o posix; set ); printf '\\0'")
     for v in case["vars"]:
@@ -590,7 +596,7 @@ def evaluate(ctx, case, pieces, workdir, tag, record=True, isolate=True):
         causes = isolate_cause(case, pieces, workdir) if isolate else ["unisolated"]
         msg = "; ".join(f"[{k}] {m}" for k, m in problems)[:900]
         for cause in causes:
-            bucket = f"parse-derailed:{cause}"
+            bucket = cause if cause.startswith("selection:") else f"parse-derailed:{cause}"
             reported.add(bucket)
             ctx.violation(bucket, case, msg)
     return reported
@@ -608,16 +614,24 @@ _ISOLATED = {}  # (template id, locale) -> bool, per worker process
 
 
 def _breaks(text):
-    """does `text`, put in front of sentinel definitions, derail the filter?"""
+    """does `text`, put in front of sentinel definitions, derail the filter?  (a) keep it, remove the sentinels;
+    (b) if it is a function: remove it, keep the sentinels"""
     from pkgcore.ebuild import filter_env
 
     tail = "VT_sentinel=1\nvf_sentinel () \n{ \n    :\n}\nVT_keep=2\n"
     out = io.BytesIO()
     try:
         filter_env.main_run(out, text + tail, ["VT_sentinel"], ["vf_sentinel"])
+        if normalise(out.getvalue().decode("utf8", "replace")) != normalise(text + "VT_keep=2"):
+            return True
+        m = _FUNC_HEADER.match(text.split("\n", 1)[0])
+        if m:
+            out = io.BytesIO()
+            filter_env.main_run(out, text + tail, [], [re.escape(text.split(" ", 1)[0])])
+            return normalise(out.getvalue().decode("utf8", "replace")) != normalise(tail)
     except Exception:  # noqa: BLE001
         return True
-    return normalise(out.getvalue().decode("utf8", "replace")) != normalise(text + "VT_keep=2")
+    return False
 
 
 def isolate_cause(case, pieces, workdir):
@@ -654,11 +668,100 @@ def isolate_cause(case, pieces, workdir):
         if _ISOLATED.get((i, loc)):
             culprits.add("stmt:" + i)
     if not culprits:
-        for p in pieces:
-            if p["kind"] == "func" and _breaks(p["text"]):
-                return ["combination-of-statements"]
+        sel = _selection_disagreement(case, pieces)
+        if sel:
+            return [sel]
+        for f in case["funcs"]:
+            txt = next((p["text"] for p in pieces if p["kind"] == "func" and p["name"] == f["name"]), None)
+            if txt is not None and _breaks(txt):
+                return ["min:" + signature(minimise_body(f["body"], loc, workdir))]
         return ["not-isolated"]
     return sorted(culprits)
+
+
+def _selection_disagreement(case, pieces):
+    """does pkgcore's compiled matcher select other names than `any(fullmatch(token))`?"""
+    from pkgcore.ebuild import filter_env
+
+    for kind, toks, wl in (("var", case["var_tokens"], case["var_whitelist"]),
+                           ("func", case["func_tokens"], case["func_whitelist"])):
+        if not toks:
+            continue
+        m = filter_env.build_regex_string(list(toks), invert=wl).match
+        for p in pieces:
+            if p["kind"] == kind and p["style"] != "declare":
+                want = selects(toks, p["name"])
+                want = (not want) if wl else want
+                if bool(m(p["name"])) != want:
+                    lone_alt = len([t for t in toks if t]) == 1 and "|" in re.sub(r"\(\?:[^()]*\)", "", toks[0])
+                    return "selection:" + ("single-token-top-level-alternation" if lone_alt else "other")
+    return None
+
+
+def _reductions(body):
+    """all bodies obtained by one reduction step: drop a statement, or replace a nest by one of its bodies"""
+    out = []
+    for j, st_ in enumerate(body):
+        if len(body) > 1:
+            out.append(body[:j] + body[j + 1:])
+        if len(st_) > 1:
+            used = NEST[st_[0]].count("%B")
+            out.append(body[:j] + st_[1] + body[j + 1:])
+            if used > 1:
+                out.append(body[:j] + st_[2] + body[j + 1:])
+            for k in (1, 2)[:max(1, used)]:
+                for sub in _reductions(st_[k]):
+                    ns = list(st_)
+                    ns[k] = sub
+                    out.append(body[:j] + [ns] + body[j + 1:])
+    return out
+
+
+def minimise_body(body, loc, workdir, rounds=14, width=80):
+    """greedy 1-minimal statement tree that still derails the filter (each round: one bash dumping all candidates)"""
+    best = body
+    for _ in range(rounds):
+        cands = sorted(_reductions(best), key=lambda b: len(core.jdump(b)))[:width]
+        if not cands:
+            break
+        script = []
+        for k, b in enumerate(cands):
+            d = q(func_source("vf_x", b))
+            script.append(f"( __d={d}; if ( eval \"$__d\" ) >/dev/null 2>&1; then eval \"$__d\"; fi; "
+                          f"printf '%s\\0' {k}; declare -f vf_x 2>/dev/null; printf '\\0' )")
+        r = run_bash("\n".join(script) + "\n", locale=loc, cwd=workdir)
+        parts = r.stdout.split(b"\0")
+        hit = None
+        for k in range(0, len(parts) - 1, 2):
+            txt = parts[k + 1].decode("utf8")
+            if txt and _breaks(txt):
+                hit = cands[int(parts[k])]
+                break
+        if hit is None:
+            break
+        best = hit
+    return best
+
+
+def _leaf_class(i):
+    if i.startswith("heredoc") or i == "comsub_heredoc":
+        return "heredoc"
+    if i.startswith("case") or i == "comsub_case":
+        return "case"
+    src = LEAF[i]
+    if re.match(r"^(local )?[a-z]=", src):
+        return "assign"
+    return "cmd"
+
+
+def signature(body):
+    def one(st_):
+        if len(st_) == 1:
+            return _leaf_class(st_[0])
+        used = NEST[st_[0]].count("%B")
+        inner = "|".join(signature(st_[k]) for k in (1, 2)[:max(1, used)])
+        return f"{st_[0]}({inner})"
+    return ";".join(one(x) for x in body)
 
 
 def _value_feature(text):
@@ -683,7 +786,10 @@ def process_batch(ctx, cases, workdir, base):
         if len(chunks) != len(idxs):
             raise core.HarnessError(f"dump bash returned {len(chunks)} chunks for {len(idxs)} cases: {r.stderr[-300:]!r}")
         for i, ch in zip(idxs, chunks):
-            pieces[i] = parse_dump(ch, cases[i])
+            try:
+                pieces[i] = parse_dump(ch, cases[i])
+            except core.HarnessError as e:
+                raise core.HarnessError(f"{e}; case {core.jdump(cases[i])}; stderr {r.stderr[-300:]!r}") from None
     for i, c in enumerate(cases):
         if not pieces[i]:
             ctx.count("empty_dump")
@@ -713,6 +819,8 @@ def run_task(ctx, task, **kw):
                 os.unlink(os.path.join(workdir, fn))
 
     def f(c):
+        if ctx.out_of_time():
+            return
         pending.append(c)
         if len(pending) >= BATCH:
             flush()
@@ -752,8 +860,9 @@ def shrink_case(ctx, bucket, case):
         if "pieces" in case or not hits(best):
             return None
         budget = [60]
+        t_end = time.time() + 60
         changed = True
-        while changed and budget[0] > 0:
+        while changed and budget[0] > 0 and time.time() < t_end:
             changed = False
             cands = []
             for k in range(len(best["funcs"])):
